@@ -17,7 +17,7 @@ QUICK = dict(
     blk="{1, 2, 3}",
     strides="{1, 2, 3}",
     roll="{-1, 1, 2, 4}",
-    batch="{<<>>, <<2>>}",
+    batch="{<<>>, <<2>>, <<2, 3>>}",
 )
 THOROUGH = dict(
     shapes="{<<n>> : n \\in 1..8} \\cup {<<a, b>> : a \\in 1..4, b \\in 1..4} "
@@ -27,7 +27,7 @@ THOROUGH = dict(
     blk="{1, 2, 3, 4}",
     strides="{1, 2, 3, 4}",
     roll="{-3, -1, 1, 2, 5}",
-    batch="{<<>>, <<2>>, <<1, 2>>}",
+    batch="{<<>>, <<2>>, <<1, 2>>, <<2, 3>>, <<3, 1, 2>>}",
 )
 INVS = [
     "TypeOK", "ResizeCentreLaw", "ResizeRoundTrip", "ResizeSwapIsTranspose", "FlipInvolution",
@@ -117,6 +117,14 @@ def check_state(sp, st, rng):
             "detail": "output differs from the documented element map at flat position %d: got %s, expected %s (sum of input labels %s)"
             % (bad, yf[bad], exp[bad], sorted(omap[bad])),
         }, nontrivial
+    # the same values in another memory layout must be moved the same way (and left untouched)
+    for lab, xv in core.layouts(x):
+        xv0 = xv.copy()
+        yv = call_real(sp, op, par, xv)
+        if tuple(yv.shape) != tuple(y.shape) or not np.array_equal(np.asarray(yv).ravel(), exp):
+            return {"kind": "layout", "detail": "%s input is rearranged differently from the same values in C order" % lab}, nontrivial
+        if not np.array_equal(xv, xv0):
+            return {"kind": "input_mutated", "detail": "%s input array changed by the call" % lab, "props": ["C02", "C09"]}, nontrivial
     # real-valued input must be moved the same way (dtype preserved)
     xr = x.real.copy()
     yr = call_real(sp, op, par, xr)
